@@ -97,6 +97,8 @@ func unpackTokenInfo(psd *pkcs7.ContentInfoSignedData) (*TSTInfo, error) {
 	infobytes, err := psd.Content.ContentInfo.Bytes()
 	if err != nil {
 		return nil, fmt.Errorf("unpack TSTInfo: %w", err)
+	} else if len(infobytes) == 0 {
+		return nil, errors.New("unpack TSTInfo: token has no content")
 	} else if infobytes[0] == 0x04 {
 		// unwrap dummy OCTET STRING
 		_, err = asn1.Unmarshal(infobytes, &infobytes)
